@@ -15,8 +15,9 @@
    - C01_stable_from_second_hop: for EVERY error (stack layers, foreign and user
      types, multi-cause ...), every process (any knowledge), from the second hop on
      nothing changes any more; C01_no_drift: the wire message is a fixpoint.
-   - C01_first_hop_stable: under a side condition that only excludes errno values
-     forwarded from another platform, already from the first hop on.
+   - C01_first_hop_stable_all: already from the first hop on (the side condition that
+     excluded errno values forwarded from another platform disappeared with the repair
+     176a263 of the library, see DESIGN.md 10.4).
    - C01_wire_shape / C01_no_drift_unknowing as before.
    - C01_text_tree_first_hop / C01_text_tree_k_hops (Proofs/TextHop.v): the FIRST hop
      (hence any number of hops) between knowing processes keeps the Error() text at
@@ -56,8 +57,8 @@ Theorem C01_exact_k_hops : forall e k n,
 Proof. exact exact_transfer. Qed.
 Print Assumptions C01_exact_k_hops.
 
-(* every error, every process whose knowledge is closed under the one rename the
-   decoders perform (previous barrier type -> barrier type) *)
+(* every error, every process whose knowledge is closed under the renames the decoders
+   perform (previous barrier type -> barrier type; errno <-> errno forwarded from another platform) *)
 Theorem C01_stable_from_second_hop : forall p, proc_closed p -> forall e n n' n'',
   erase (fst (hop p (fst (hop p (fst (hop p e n)) n')) n'')) = erase (fst (hop p (fst (hop p e n)) n')).
 Proof. exact hop_stable. Qed.
@@ -90,13 +91,27 @@ Theorem C01_no_drift_unknowing : forall p, knows_nothing p -> forall x,
 Proof. exact reencode_exact. Qed.
 Print Assumptions C01_no_drift_unknowing.
 
-(* the side condition of the first-hop theorems is needed: an errno from another platform settles one hop later *)
-Theorem C01_first_hop_condition_needed :
-  proc_closed all_knowing /\
+(* every error, from the FIRST hop on, without any side condition (after the repair 176a263 of
+   the library: an errno forwarded from another platform used to settle one hop later; the
+   model found it as a side condition of this theorem, the C11 relation shows it on the code) *)
+Theorem C01_first_hop_stable_all : forall p, proc_closed p -> forall e n n',
+  erase (fst (hop p (fst (hop p e n)) n')) = erase (fst (hop p e n)).
+Proof. exact hop_stable_first'. Qed.
+Print Assumptions C01_first_hop_stable_all.
+
+Theorem C01_foreign_errno_now_stable :
+  errno_ok all_knowing foreign_errno_msg = false /\
   erase (fst (decode all_knowing (encode (fst (decode all_knowing foreign_errno_msg 100%positive))) 200%positive))
-  <> erase (fst (decode all_knowing foreign_errno_msg 100%positive)).
-Proof. exact hop_idem_needs_errno_ok. Qed.
-Print Assumptions C01_first_hop_condition_needed.
+  = erase (fst (decode all_knowing foreign_errno_msg 100%positive)).
+Proof. exact foreign_errno_stable. Qed.
+Print Assumptions C01_foreign_errno_now_stable.
+
+(* knowledge must be closed: a process that knows the errno type but not its forwarded form
+   (or the reverse) would break it *)
+Theorem C01_closure_needed :
+  ~ proc_closed only_errno /\ ~ proc_closed only_opaqueErrno.
+Proof. split; intros [_ H]; vm_compute in H; discriminate. Qed.
+Print Assumptions C01_closure_needed.
 
 (* the first hop keeps the text of every node and the structure: all kinds *)
 Theorem C01_text_tree_first_hop : forall e n,
